@@ -261,9 +261,15 @@ def make_receiver(case, poke=True):
 
 @contextlib.contextmanager
 def profile(name):
-    """run under a non-default reaction to empty tables (the other kinds keep their default)"""
+    """run under a non-default reaction to empty tables (the other kinds keep their default); "warnings-are-errors":
+    default profile, but any warning the call emits is raised (none of these operations has a reason to warn)"""
     if not name:
         yield
+        return
+    if name == "warnings-are-errors":
+        with warnings.catch_warnings():
+            warnings.simplefilter("error")
+            yield
         return
     import biom.err
     with warnings.catch_warnings():
@@ -353,7 +359,7 @@ def evaluate(ctx, case, tags=(), nontrivial=True):
     if rec.get("argument_mutated"):
         ctx.fail(full, "argument.left_as_given", tags + (rec["argument_mutated"],))
     if case.get("profile"):
-        ctx.count("profile=empty:%s" % case["profile"])
+        ctx.count("profile=%s" % case["profile"])
     rep = ctx.driver.ask(req)
     ctx.count("op=%s" % op["op"])
     ctx.count("outcome=%s:%s" % (op["op"], "ok" if "ok" in result else result["error"]))
@@ -703,8 +709,8 @@ def op_stream(ctx, n, max_dim):
                                                             {"seed": rng.randrange(10 ** 6)}]), containers)
         if rng.random() < 0.3:
             base["preread"] = rng.randrange(10 ** 6)
-        if rng.random() < 0.15:
-            base["profile"] = rng.choice(["raise", "raise", "warn", "call"])
+        if rng.random() < 0.2:
+            base["profile"] = rng.choice(["raise", "raise", "warn", "call", "warnings-are-errors"])
         style = rng.choice([None, None, "defaults", "positional", "numpy-values"])
         t0 = safe_receiver(ctx, dict(base, op={"op": "copy"}), ("random",))
         if t0 is None:
